@@ -146,6 +146,9 @@ func (s *loopSet) translate(name string) string {
 		if o == nil || id.Name == "_" {
 			return
 		}
+		if _, isConst := o.(*types.Const); isConst {
+			return // stage 12: a local constant is the value go/types computes for it
+		}
 		if _, isVar := o.(*types.Var); !isVar {
 			t.fail(id, "unsupported declaration of %s", id.Name)
 		}
@@ -565,6 +568,10 @@ func (t *loopTr) block(list []ast.Stmt, ind string, m blockMode, k func(ind stri
 				vals = append(vals, v)
 				continue
 			}
+			if v, ok := t.big2RetStrings(r, t.rets[i]); ok {
+				vals = append(vals, v) // stage 12 (loops_big2.go): nil as a []string result
+				continue
+			}
 			if id, ok := unparen(r).(*ast.Ident); ok && t.rets[i].isSlice() {
 				if o := t.info.Uses[id]; o != nil {
 					if retSlices[o] {
@@ -774,6 +781,9 @@ func (t *loopTr) simple(st ast.Stmt) []binding {
 		return bind(name, k, fmt.Sprintf("(%s %s 1#%d)", name, op, k.width()))
 	case *ast.DeclStmt:
 		gd, ok := s.Decl.(*ast.GenDecl)
+		if ok && gd.Tok == token.CONST {
+			return nil // stage 12: a local constant is the value go/types computes for it
+		}
 		if !ok || gd.Tok != token.VAR {
 			t.fail(s, "unsupported declaration")
 		}
@@ -904,6 +914,9 @@ func (t *loopTr) simple(st ast.Stmt) []binding {
 			v, _ := t.binop(s, op, name, k, b, bk)
 			return bind(name, k, v)
 		case *ast.IndexExpr:
+			if bs, ok := t.big2AssignStrings(s, l); ok {
+				return bs // stage 12 (loops_big2.go): words[i] = s on a local []string made by make
+			}
 			if s.Tok != token.ASSIGN {
 				return t.opAssignIndex(s, l)
 			}
